@@ -588,6 +588,7 @@ struct simFile {
 };
 
 static unsigned long clsWrites[CLS_N];	/* write callbacks per class */
+static unsigned long nEscapes;		/* files / directories the world tried to create outside its sandbox */
 static char cwdBuf[1024];
 
 static const char *baseName(const char *p)
@@ -732,7 +733,17 @@ FILE *__wrap_fopen(const char *path, const char *mode)
 	/* The collector reads /proc/<getpid()>/maps; getpid is virtual. */
 	if (!strncmp(path, "/proc/", 6) && strlen(path) > 5 && !strcmp(path + strlen(path) - 5, "/maps"))
 		return __real_fopen("/proc/self/maps", mode);
-	if (!inSandbox(path, abs, sizeof abs)) return __real_fopen(path, mode);
+	if (!inSandbox(path, abs, sizeof abs)) {
+		/* A file created OUTSIDE the sandbox is an output that escaped the place it was asked
+		 * for: logged, and - since the world must not scribble over the machine - refused. */
+		if (P.fsRootLen && (strchr(mode, 'w') || strchr(mode, 'a')) && strncmp(abs, "/dev/", 5) && strncmp(abs, "/proc/", 6)) {
+			nEscapes++;
+			simLog("E open %s\n", abs);
+			errno = EACCES;
+			return 0;
+		}
+		return __real_fopen(path, mode);
+	}
 
 	cls = clsOfPath(abs);
 	wr = strchr(mode, 'w') || strchr(mode, 'a') || strchr(mode, '+');
@@ -813,6 +824,12 @@ int __wrap_mkdir(const char *path, mode_t mode)
 		r = __real_mkdir(path, mode);
 		{ int e = errno; simLog("M %s\n", r == 0 ? "ok" : "exists-or-fail"); errno = e; }
 		return r;
+	}
+	if (P.fsRootLen) {
+		nEscapes++;
+		simLog("E mkdir %s\n", abs);
+		errno = EACCES;
+		return -1;
 	}
 	return __real_mkdir(path, mode);
 }
